@@ -179,6 +179,12 @@ func (h *Client) dial(addr string) (net.Conn, error) {
 		return nil, fmt.Errorf("scenario: dial %d refused", n)
 	}
 	c, _ := vsched.NewConnPair("client#"+strconv.Itoa(len(h.Conns)), "server#"+strconv.Itoa(len(h.Conns)))
+	switch SegMode {
+	case 2:
+		c.ReadChunk = 1
+	case 3:
+		c.ReadChunk = 7
+	}
 	sc := &SrvConn{Idx: len(h.Conns), C: c, Streams: map[uint32]*SrvStream{}, dec: hpack.NewDecoder(4096, nil), Enc: NewPeerEncoder()}
 	h.Conns = append(h.Conns, sc)
 	return c, nil
@@ -326,13 +332,29 @@ func (h *Client) Send(i int, fs ...peer.Frame) {
 		b = f.Append(b)
 		names = append(names, f.String())
 	}
-	h.Conns[i].C.Inject(b)
+	h.inject(i, b)
 	h.step(fmt.Sprintf("server#%d sends %s", i, strings.Join(names, ", ")))
+}
+
+// inject delivers b to the client's transport according to SegMode (see server.go).
+func (h *Client) inject(i int, b []byte) {
+	if SegMode == 1 {
+		for k := 0; k+1 < len(b); k++ {
+			h.Conns[i].C.Inject(b[k : k+1])
+			h.S.Run()
+			h.collect()
+		}
+		if len(b) > 0 {
+			h.Conns[i].C.Inject(b[len(b)-1:])
+		}
+		return
+	}
+	h.Conns[i].C.Inject(b)
 }
 
 // SendRaw delivers raw bytes.
 func (h *Client) SendRaw(i int, b []byte) {
-	h.Conns[i].C.Inject(b)
+	h.inject(i, b)
 	h.step(fmt.Sprintf("server#%d sends %d raw bytes", i, len(b)))
 }
 
